@@ -74,6 +74,17 @@ _dispatch_verif_queue_peek(dispatch_queue_t dq, uint16_t *width,
 			dq->do_targetq->dq_label : "";
 }
 
+/* pool bookkeeping of a global (root) queue: values and field offsets */
+DV_EXPORT void
+_dispatch_verif_root_peek(dispatch_queue_global_t dq, int *pending,
+		int *pool_size, long *off_pending, long *off_pool_size)
+{
+	*pending = os_atomic_load2o(dq, dgq_pending, relaxed);
+	*pool_size = os_atomic_load2o(dq, dgq_thread_pool_size, relaxed);
+	*off_pending = (long)((char *)&dq->dgq_pending - (char *)dq);
+	*off_pool_size = (long)((char *)&dq->dgq_thread_pool_size - (char *)dq);
+}
+
 DV_EXPORT volatile void *
 _dispatch_verif_queue_state_addr(dispatch_queue_t dq)
 {
